@@ -102,3 +102,61 @@ func vhC12ConcurrencyStep() {
 	}
 	vAssert("counter-balanced", s.GetCurrentConcurrency() == cur)
 }
+
+// vhC12ServeConnBalance: connections served one after the other through the
+// real ServeConn with a small Concurrency: a plain request, a hijacking
+// request, a malformed request or a silent client. Every connection must be
+// admitted (the previous one has given its slot back) and the counters are
+// back to zero when all are closed or hijacked-and-released.
+func vhC12ServeConnBalance() {
+	K := vLen("conns", 1, vParam("conns", 3))
+	s := &Server{NoDefaultDate: true, NoDefaultServerHeader: true}
+	s.Concurrency = vIntRange("concurrency", 1, 2)
+	s.KeepHijackedConns = vBool("keepHijacked")
+	handled := 0
+	hijackDone := 0
+	s.Handler = func(ctx *RequestCtx) {
+		handled++
+		if string(ctx.Path()) == "/hijack" {
+			ctx.Hijack(func(c net.Conn) { hijackDone++ })
+		}
+		ctx.SetBodyString("ok")
+	}
+	wantHandled, wantHijacks := 0, 0
+	rejected := false
+	for i := 0; i < K; i++ {
+		var in string
+		switch vChoose("kind", 4) {
+		case 0:
+			in = "GET /plain HTTP/1.1\r\nHost: a\r\nConnection: close\r\n\r\n"
+			wantHandled++
+		case 1:
+			in = "GET /hijack HTTP/1.1\r\nHost: a\r\n\r\n"
+			wantHandled++
+			wantHijacks++
+		case 2:
+			in = "BAD\r\n\r\n"
+		case 3:
+			in = ""
+		}
+		c := &vsSegConn{}
+		if in != "" {
+			c.segs = [][]byte{[]byte(in)}
+		}
+		s.ServeConn(c)
+		time.Sleep(10 * time.Millisecond) // let a hijack handler goroutine finish
+		if len(c.wrote) >= 12 && string(c.wrote[:12]) == "HTTP/1.1 503" {
+			rejected = true
+		}
+	}
+	vAssert("sequential-connections-are-never-rejected", !rejected && handled == wantHandled && hijackDone == wantHijacks)
+	vAssert("concurrency-returns-to-zero", s.GetCurrentConcurrency() == 0)
+	vAssert("open-counter-balanced", s.open.Load() == 0)
+	if vKnown("C12-open-count-minus-one-without-listener") {
+		// listed finding: GetOpenConnectionsCount subtracts the unit that a
+		// listening Serve adds; a server used only through ServeConn reports -1
+		vAssert("open-connections-return-to-zero", s.GetOpenConnectionsCount() == -1)
+	} else {
+		vAssert("open-connections-return-to-zero", s.GetOpenConnectionsCount() == 0)
+	}
+}
